@@ -133,3 +133,77 @@ def model_limit(name, c):
     if not c:
         raise NotImplementedError('outside the modelled range: ' + name)
     return True
+
+
+def shares_memory(a, b):
+    import numpy as np
+    try:
+        return bool(np.shares_memory(np.asarray(getattr(a, 'value', a)), np.asarray(getattr(b, 'value', b))))
+    except Exception:
+        return False
+
+
+# ---------------------------------------------------------------------------- uninterpreted functions, natively
+# Under the verifier `uf(name, sort, *args)` is an application of an uninterpreted function.  In a native replay the function is the
+# interpretation the counter-model gives it (UF_MODEL: name -> {'entries': [(args, value)], 'else': value}, set by native_run);
+# arguments are matched with a small tolerance (they went through floating point on the way); where the model says nothing a
+# fixed pseudo-random function of the arguments is used (some function, the same for equal arguments).
+UF_MODEL = {}
+
+
+def _uf_value(name, sort, args):
+    import zlib
+    key = None
+    for k in UF_MODEL:
+        if k == name or k.startswith(name + '__'):
+            key = k
+            break
+    nums = []
+    for a in args:
+        if hasattr(a, 'shape') and getattr(a, 'shape', ()) != ():
+            nums.append(float(zlib.crc32(repr(getattr(a, 'tolist', lambda: a)()).encode()) % 1000))
+        else:
+            nums.append(float(a))
+    if key is not None:
+        spec = UF_MODEL[key]
+        for eargs, val in spec.get('entries', []):
+            if len(eargs) == len(nums) and all(abs(float(x) - y) <= 1e-9 * max(1.0, abs(y)) for x, y in zip(eargs, nums)):
+                return val
+        if spec.get('else') is not None:
+            return spec['else']
+    h = zlib.crc32(repr((name, [round(x, 9) for x in nums])).encode())
+    if sort == 'bool':
+        return bool(h & 1)
+    if sort == 'int':
+        return int(h % 7)
+    return (h % 1000) / 1000.0
+
+
+def uf(name, sort, *args):
+    v = _uf_value(name, sort, args)
+    return bool(v) if sort == 'bool' else (int(v) if sort == 'int' else float(v))
+
+
+def uf_real(name, *args):
+    return uf(name, 'real', *args)
+
+
+def uf_bool(name, *args):
+    return uf(name, 'bool', *args)
+
+
+def arr_like(like, fn, dtype='float'):
+    import numpy as np
+    a = np.asarray(getattr(like, 'value', like))
+    out = np.empty(a.shape, dtype={'float': float, 'int': int, 'bool': bool}[dtype])
+    for idx in np.ndindex(*a.shape):
+        out[idx] = fn(*idx)
+    return out
+
+
+def arr_from_fn(shape, fn, dtype='float'):
+    import numpy as np
+    out = np.empty(tuple(int(s) for s in shape), dtype={'float': float, 'int': int, 'bool': bool}[dtype])
+    for idx in np.ndindex(*out.shape):
+        out[idx] = fn(*idx)
+    return out
